@@ -174,7 +174,7 @@ func (r *run) runIndependence(e *Engine) {
 	for k := 0; k < nPairs; k++ {
 		pp := &pairPlan{opt: defaultOptions()}
 		if t.Chance(core.Cfg, 2, 3) {
-			pp.opt = drawOptions(t, true)
+			pp.opt = drawOptionsX(t, true, true)
 		}
 		hp := &histPlan{inDomain: true, signals: []string{"traces", "logs", "metrics"}}
 		if t.Chance(core.Cfg, 1, 2) {
